@@ -223,6 +223,12 @@ pub fn check_client(h: &History, ctx: &Ctx, st: &mut Stats) -> Result<(), String
         if sim.cfg.max_tx == 0 || sim.desync {
             return Ok(());
         }
+        // the drain stops at the model's clock horizon (learned RTOs of days put deadlines beyond it); requests that
+        // are then still awaiting occupy their slots legitimately, so the probe below would be refused for a reason
+        // that has nothing to do with usability (whether every request reaches an outcome is C11's question)
+        if !sim.awaiting().is_empty() {
+            return Ok(());
+        }
         let fp = if sim.cfg.fingerprint { FpMode::Valid } else { FpMode::Absent };
         let send = |sim: &mut Sim| -> Result<usize, String> {
             sim.now += 1_000_000_000;
